@@ -21,7 +21,7 @@ RULE = (
     "state = (API, reduction/scan, method, engine, reindex, labels numpy|dask, expected_groups given|absent, label layout, chunking); "
     "transition = the real API call made while every dask compute raises and every input block is wrapped in a counting tripwire, "
     "followed by one compute. Oracle: zero tripwire hits and zero scheduler invocations during the call; the returned object is lazy "
-    "(a dask collection / an xarray object holding one); during the compute every input block is produced exactly once; for dask labels "
+    "(a dask collection / an xarray object holding one); during the compute every input block is produced at most once per consuming block task; for dask labels "
     "without expected_groups dict(zip(groups, result)) equals the eager mapping. Non-trivial = dask labels, or a planner decision (method=None)."
 )
 ASSUMPTIONS = [
@@ -39,6 +39,7 @@ LAYOUTS = {
     "interleaved": ([0.0, 1.0, 0.0, 1.0, 2.0, 0.0], (2, 2, 2)),
     "blockwise": ([0.0, 0.0, 1.0, 1.0, 2.0, 2.0], (2, 2, 2)),
     "missing": ([0.0, NAN, 1.0, 1.0, NAN, 0.0], (3, 3)),
+    "none-requested": ([7.0, 7.0, 8.0, 8.0, 7.0, 8.0], (2, 2, 2)),  # with expected_groups: no requested label occurs
 }
 
 
@@ -149,7 +150,7 @@ def check_reduce(res, func, layout, method, engine, reindex, labels_dask, expect
     if not is_lazy(result):
         res.outcomes["not-a-lazy-array"] += 1
         res.violate("returned-eager-object", case, dict(type=type(result).__name__), "a lazy (dask) array", tags=dict(tags, kind="type",
-                    no_requested_label_present=False), size=size)
+                    no_requested_label_present=bool(expected and layout == "none-requested")), size=size)
         return
     # compute once: every input block is produced exactly once
     TRIP.clear()
@@ -162,10 +163,12 @@ def check_reduce(res, func, layout, method, engine, reindex, labels_dask, expect
         res.outcomes[f"error-at-compute:{type(e).__name__}"] += 1
         return
     res.transitions += 1
-    multi = {str(k): v for k, v in TRIP.items() if v > 1}
+    # dask may fuse a cheap producer into each of its consumers: a label block feeds one chunk task per batch block (2 here),
+    # an array block feeds exactly one
+    multi = {str(k): v for k, v in TRIP.items() if v > (2 if k[0] == "labels" else 1)}
     if multi:
         res.outcomes["recomputed-blocks"] += 1
-        res.violate("block-evaluated-twice", case, dict(multiply_evaluated=multi), "each input block is produced once per compute",
+        res.violate("block-evaluated-twice", case, dict(multiply_evaluated=multi), "each input block is produced at most once per consumer",
                     tags=dict(tags, kind="recompute"), size=size)
         return
     # the mapping label -> value equals the eager one
